@@ -728,6 +728,25 @@ fn stream_reconstruct(rng: &mut Rng, out: &mut Out, thorough: bool) {
         } else {
             packed::Block::new_builder().header(hdr0).uncles(uncle_blocks.clone().pack()).transactions(committed_txs.pack()).proposals(proposals.clone()).build().into_view()
         };
+        // what GetBlockTransactionsProcess does with a peer's indexes on a stored block:
+        // `block.transactions().get(i)` / `block.uncles().get(i)`, filter_map over the answers
+        {
+            let nu = full.uncles().data().len();
+            let nt = full.transactions().len();
+            for i in [0usize, nu.saturating_sub(1), nu, nu + 1, u32::MAX as usize] {
+                match silent(|| full.uncles().get(i).is_some()) {
+                    Ok(some) => if some != (i < nu) { out.violation(&format!("uncles().get({i}) on a block with {nu} uncles answers {some}"), json!({"stream": "reconstruct", "block": hex(full.data().as_slice())}), None); },
+                    Err(p) => out.violation(&format!("uncles().get({i}) on a block with {nu} uncles panics ({p}): a GetBlockTransactions request with that uncle index crashes the relay handler"), json!({"stream": "reconstruct", "block": hex(full.data().as_slice())}), None),
+                }
+            }
+            for i in [0usize, nt.saturating_sub(1), nt, nt + 1, u32::MAX as usize] {
+                match silent(|| full.transactions().get(i).is_some()) {
+                    Ok(some) => if some != (i < nt) { out.violation(&format!("transactions().get({i}) with {nt} transactions answers {some}"), json!({"stream": "reconstruct"}), None); },
+                    Err(p) => out.violation(&format!("transactions().get({i}) panics ({p})"), json!({"stream": "reconstruct"}), None),
+                }
+            }
+            out.count("peer_index_accessor_probes");
+        }
         let header = full.data().header();
         // the compact block may carry other proposals than the header commits to
         let hdr_ok = !rng.chance(1, 6);
